@@ -32,6 +32,8 @@ def handle(req):
         return {"error": "HarnessError: " + str(e)}
     except Exception:
         return {"error": "native scenario raised:\n" + traceback.format_exc()}
+    finally:
+        B.restore_patches()
     return B.result()
 
 
